@@ -49,8 +49,9 @@ func (a *gCLA) proto() *v3endpointpb.ClusterLoadAssignment {
 		return nil
 	}
 	cla := &v3endpointpb.ClusterLoadAssignment{ClusterName: a.Name}
-	for _, loc := range a.Localities {
-		l := &v3endpointpb.LocalityLbEndpoints{}
+	for li, loc := range a.Localities {
+		// priorities in no particular order: the decoder keeps the localities in MESSAGE order (it does not read the priority)
+		l := &v3endpointpb.LocalityLbEndpoints{Priority: uint32((7*li + 3) % 5)}
 		for _, e := range loc {
 			l.LbEndpoints = append(l.LbEndpoints, &v3endpointpb.LbEndpoint{
 				HostIdentifier: &v3endpointpb.LbEndpoint_Endpoint{Endpoint: &v3endpointpb.Endpoint{
